@@ -45,6 +45,10 @@ func goTypeOfSort(s string) types.Type {
 		return types.Typ[types.Bool]
 	case "Bytes":
 		return types.Typ[types.String]
+	case "(Sq Bytes)":
+		return types.NewSlice(types.Typ[types.String])
+	case "(Sq Int)":
+		return types.NewSlice(types.Typ[types.Int])
 	}
 	return nil
 }
